@@ -206,6 +206,7 @@ pub fn run_lib(sc: &Scenario) -> Observation {
             results: 0,
             report: Report::None,
             raw: None,
+            raw_lossy: false,
         })
         .collect();
     let exec;
